@@ -35,6 +35,8 @@ type c09Out struct {
 	Fail   string  `json:"fail,omitempty"`
 }
 
+var c09Deadlocks int
+
 func c09Exec(c *c09Case) (out c09Out) {
 	log := &Log{}
 	opts := tally.ScopeOptions{OmitCardinalityMetrics: true}
@@ -51,9 +53,14 @@ func c09Exec(c *c09Case) (out c09Out) {
 			ctl.Yield(p)
 		}
 	})
+	dead := false // a goroutine stayed blocked: the case is abandoned (its goroutines cannot be released)
 	defer func() {
 		setYield(nil)
-		closer.Close()
+		if !dead {
+			closer.Close()
+		} else {
+			c09Deadlocks++
+		}
 	}()
 	var mu sync.Mutex
 	objIdx := map[string]int{}
@@ -129,7 +136,7 @@ func c09Exec(c *c09Case) (out c09Out) {
 	}
 	n := ctl.N()
 	step := func(i int) {
-		if i >= n || ctl.Done(i) {
+		if dead || i >= n || ctl.Done(i) {
 			return
 		}
 		l := ctl.Step(i)
@@ -143,8 +150,12 @@ func c09Exec(c *c09Case) (out c09Out) {
 			if out.Fail == "" {
 				out.Fail = "a first-use call blocked on a lock although no goroutine was inside a critical section (deadlock?)"
 			}
-			for g := 0; g < 200 && l == Blocked; g++ {
+			for g := 0; g < 40 && l == Blocked; g++ {
 				l = ctl.Step(i)
+			}
+			if l == Blocked {
+				dead = true
+				return
 			}
 		}
 		out.Labels = append(out.Labels, int64(l))
@@ -162,11 +173,11 @@ func c09Exec(c *c09Case) (out c09Out) {
 				step(i)
 			}
 		}
-		if !busy {
+		if !busy || dead {
 			break
 		}
 	}
-	for g := 0; g < 10000 && !ctl.Done(n-1); g++ {
+	for g := 0; g < 10000 && !ctl.Done(n-1) && !dead; g++ {
 		step(n - 1)
 	}
 	// observables: allocations and deliveries
@@ -306,6 +317,9 @@ func init() {
 		ctx.Res.Rule = "case = (programs of 2..4 goroutines over {obtain (kind, name), record, report pass} on one live scope, reporter flavour, schedule over the yield points between probe and locked re-check of the four getters); plus child-scope first use on the registry scenarios without Close; non-trivial = two goroutines were between probe and lock for the same (kind, name) at once; distinct by (case, executed schedule)"
 		nsched := 0
 		one := func(c *c09Case) {
+			if c09Deadlocks >= 3 {
+				return // deadlocked goroutines cannot be released: three witnesses are enough
+			}
 			out := c09Exec(c)
 			key := ""
 			// two threads parked at a lock label for the same key at once
@@ -441,7 +455,12 @@ func c09Storm(rounds, G int) string {
 	log := &Log{}
 	root, closer := tally.VerifNewRootScope(tally.ScopeOptions{OmitCardinalityMetrics: true,
 		CachedReporter: &RecCached{L: log, Caps: caps{true, true}}}, 0, 2)
-	defer closer.Close()
+	deadlocked := false
+	defer func() {
+		if !deadlocked {
+			closer.Close()
+		}
+	}()
 	scope := root.SubScope("storm")
 	ids := make([]string, G)
 	for r := 0; r < rounds; r++ {
@@ -477,7 +496,10 @@ func c09Storm(rounds, G int) string {
 				}
 			}()
 		}
-		wg.Wait()
+		if dl := waitOrDeadlock(&wg, "uber-go/tally/v4."); dl != "" {
+			deadlocked = true
+			return fmt.Sprintf("round %d: %d goroutines asked the same scope for %s %q at once (or a later round found the lock of an earlier one still held): %s", r, G, []string{"counter", "gauge", "timer", "histogram"}[kind], name, dl)
+		}
 		for g := 1; g < G; g++ {
 			if ids[g] != ids[0] {
 				return fmt.Sprintf("round %d: %d goroutines asked the same scope for %s %q at once and got different objects", r, G, []string{"counter", "gauge", "timer", "histogram"}[kind], name)
